@@ -351,17 +351,74 @@ theorem noFatalFail_sound {α} {p : Prog α} (hp : NoFatalFail p) :
 
 /-! ### C09: error propagation -/
 
-/-- Programs that never swallow or transform an I/O error: no handler, or a handler that re-raises every `io`
-    error unchanged (and is itself such a program on the other errors). Destructor bodies (`finallyDrop _ c`) cannot
-    report errors — the property's exemption — so `c` is only required not to panic or hang by itself. -/
-inductive IoSafe : {α : Type} → Prog α → Prop where
-  | pure {α} (a : α) : IoSafe (Prog.pure a)
-  | fail {α} (e : Err) : IoSafe (Prog.fail (α := α) e)
-  | op (o : Op) : IoSafe (Prog.op o)
-  | bind {α β} (p : Prog β) (k : β → Prog α) : IoSafe p → (∀ b, IoSafe (k b)) → IoSafe (Prog.bind p k)
-  | tryCatch {α} (p : Prog α) (h : Err → Prog α) : IoSafe p → (∀ k, h (.io k) = Prog.fail (.io k)) →
-      (∀ e, IoSafe (h e)) → IoSafe (Prog.tryCatch p h)
-  | finallyDrop {α} (p : Prog α) (c : Option α → Prog Unit) : IoSafe p → (∀ o, NoFatalFail (c o)) → IoSafe (Prog.finallyDrop p c)
+/-- SEMANTIC version of `NoFatalFail`: no run of the program ends in a panic or a hang (what a destructor body must
+    satisfy; e.g. the fuel-exhaustion `.fail .hang` of `writeAllLoop` is syntactically present but unreachable) -/
+structure NonFatal {α} (p : Prog α) : Prop where
+  out : ∀ (d : Dev) (e : Err) (d' : Dev), run p d = (.error e, d') → e.isFatal = false
+
+theorem NoFatalFail.nonFatal {α} {p : Prog α} (hp : NoFatalFail p) : NonFatal p :=
+  ⟨fun d _ _ hr => noFatalFail_sound hp d hr⟩
+
+theorem NonFatal.pure {α} (a : α) : NonFatal (Prog.pure a) := (NoFatalFail.pure a).nonFatal
+theorem NonFatal.fail {α} (e : Err) (he : e.isFatal = false) : NonFatal (Prog.fail (α := α) e) :=
+  (NoFatalFail.fail e he).nonFatal
+theorem NonFatal.op (o : Op) : NonFatal (Prog.op o) := (NoFatalFail.op o).nonFatal
+
+theorem NonFatal.bind {α β} {p : Prog β} {k : β → Prog α} (hp : NonFatal p) (hk : ∀ b, NonFatal (k b)) :
+    NonFatal (Prog.bind p k) := by
+  refine ⟨fun d e d' hr => ?_⟩
+  simp only [run] at hr
+  rcases hq : run p d with ⟨rp, d1⟩
+  rw [hq] at hr
+  cases rp with
+  | ok b => exact (hk b).out d1 e d' hr
+  | error e1 => simp only at hr; cases hr; exact hp.out d _ _ hq
+
+theorem NonFatal.tryCatch {α} {p : Prog α} {h : Err → Prog α} (hp : NonFatal p) (hh : ∀ e, NonFatal (h e)) :
+    NonFatal (Prog.tryCatch p h) := by
+  refine ⟨fun d e d' hr => ?_⟩
+  simp only [run] at hr
+  rcases hq : run p d with ⟨rp, d1⟩
+  rw [hq] at hr
+  cases rp with
+  | ok a => simp only at hr; cases hr
+  | error e1 =>
+    simp only at hr
+    split at hr
+    · cases hr; exact hp.out d _ _ hq
+    · exact (hh e1).out d1 _ _ hr
+
+theorem NonFatal.finallyDrop {α} {p : Prog α} {c : Option α → Prog Unit} (hp : NonFatal p)
+    (hc : ∀ o, NonFatal (c o)) : NonFatal (Prog.finallyDrop p c) := by
+  refine ⟨fun d e d' hr => ?_⟩
+  simp only [run] at hr
+  rcases hq : run p d with ⟨rp, d1⟩
+  rw [hq] at hr
+  cases rp with
+  | ok a =>
+    simp only at hr
+    rcases hcr : run (c (some a)) { d1 with dropDepth := d1.dropDepth + 1 } with ⟨rc, d2⟩
+    rw [hcr] at hr
+    cases rc with
+    | ok u => simp only at hr; cases hr
+    | error e' =>
+      simp only at hr
+      split at hr
+      · cases hr; exact (hc _).out _ _ _ hcr
+      · cases hr
+  | error e1 =>
+    simp only at hr
+    split at hr
+    · cases hr; exact hp.out d _ _ hq
+    · rcases hcr : run (c none) { d1 with dropDepth := d1.dropDepth + 1 } with ⟨rc, d2⟩
+      rw [hcr] at hr
+      cases rc with
+      | ok u => simp only at hr; cases hr; exact hp.out d _ _ hq
+      | error e' =>
+        simp only at hr
+        split at hr
+        · cases hr; exact (hc _).out _ _ _ hcr
+        · cases hr; exact hp.out d _ _ hq
 
 /-- started with no fault fired: either none fired; or exactly one did, the schedule is spent, and if it fired
     OUTSIDE a destructor the result is the I/O error carrying the index of the failed call -/
@@ -371,6 +428,104 @@ def FaultOutcome (e? : Option Err) (d' : Dev) : Prop :=
 
 def Propagates {α} (p : Prog α) : Prop :=
   ∀ d : Dev, d.fault = none → ∀ r d', run p d = (r, d') → FaultOutcome (resErr r) d'
+
+/-- the error "carried" by a result when successful values may themselves carry a caught error (`f`) -/
+def errVia {α} (f : α → Option Err) : Except Err α → Option Err
+  | .ok a => f a
+  | .error e => some e
+
+/-- `Propagates` for programs that may return a caught error as (part of) their VALUE — `Prog.attempt p`,
+    `writeSlotsKeep`: a fault fired outside a destructor shows up either as the raised error or as the carried one -/
+def PropagatesVia {α} (f : α → Option Err) (p : Prog α) : Prop :=
+  ∀ d : Dev, d.fault = none → ∀ r d', run p d = (r, d') → FaultOutcome (errVia f r) d'
+
+/-- run after the one-shot fault has fired (so no device call can fail any more), the program ends in the I/O
+    error `io j` (raised, or carried by its value as seen through `f`) -/
+def ReraisesVia {α} (f : α → Option Err) (j : Nat) (q : Prog α) : Prop :=
+  ∀ d : Dev, d.failAt = none → ∀ r d', run q d = (r, d') → errVia f r = some (.io j)
+
+def Reraises {α} (j : Nat) (q : Prog α) : Prop :=
+  ∀ d : Dev, d.failAt = none → ∀ r d', run q d = (r, d') → resErr r = some (.io j)
+
+theorem resErr_eq_errVia {α} (r : Except Err α) : resErr r = errVia (fun _ => none) r := by
+  cases r <;> rfl
+
+theorem propagates_iff_via {α} (p : Prog α) : Propagates p ↔ PropagatesVia (fun _ => none) p := by
+  unfold Propagates PropagatesVia
+  simp only [resErr_eq_errVia]
+
+theorem reraises_iff_via {α} (j : Nat) (q : Prog α) : Reraises j q ↔ ReraisesVia (fun _ => none) j q := by
+  unfold Reraises ReraisesVia
+  simp only [resErr_eq_errVia]
+
+theorem PropagatesVia.pure {α} (f : α → Option Err) (a : α) : PropagatesVia f (Prog.pure a) := by
+  intro d h r d' hr; simp only [run] at hr; cases hr; left; exact h
+
+/-- the semantic sequencing rule: the continuation must re-raise an I/O error its argument carries -/
+theorem PropagatesVia.bind {α β} {f : β → Option Err} {g : α → Option Err} {q : Prog β} {k : β → Prog α}
+    (hq : PropagatesVia f q) (hk : ∀ b, PropagatesVia g (k b))
+    (hre : ∀ b j, f b = some (.io j) → ReraisesVia g j (k b)) : PropagatesVia g (Prog.bind q k) := by
+  intro d h r d' hr
+  simp only [run] at hr
+  rcases hp : run q d with ⟨rq, d1⟩
+  rw [hp] at hr
+  cases rq with
+  | error e => simp only at hr; cases hr; exact hq d h _ _ hp
+  | ok b =>
+    simp only at hr
+    rcases hq d h _ _ hp with h1 | ⟨h1, f0, h2, h3⟩
+    · exact hk b d1 h1 _ _ hr
+    · have hs := (run_facts (k b) d1 hr).spent h1
+      right
+      refine ⟨hs.1, f0, by rw [hs.2, h2], fun hf => ?_⟩
+      exact hre b f0.k (h3 hf) d1 h1 _ _ hr
+
+/-- value of `attempt` -/
+theorem run_attempt {α} (p : Prog α) (d : Dev) :
+    run (Prog.attempt p) d =
+      match run p d with
+      | (.ok a, d1) => (.ok (.ok a), d1)
+      | (.error e, d1) => if e.isFatal then (.error e, d1) else (.ok (.error e), d1) := by
+  simp only [Prog.attempt, run]
+  rcases run p d with ⟨rp, d1⟩
+  cases rp with
+  | ok a => rfl
+  | error e => simp only
+
+/-- the error an `Except` value carries -/
+def exceptErr {α} : Except Err α → Option Err
+  | .ok _ => none
+  | .error e => some e
+
+theorem attempt_via {α} {p : Prog α} (hp : Propagates p) : PropagatesVia exceptErr (Prog.attempt p) := by
+  intro d h r d' hr
+  rw [run_attempt] at hr
+  rcases hq : run p d with ⟨rp, d1⟩
+  rw [hq] at hr
+  have := hp d h _ _ hq
+  cases rp with
+  | ok a => simp only at hr; cases hr; exact this
+  | error e =>
+    simp only at hr
+    split at hr <;> cases hr <;> exact this
+
+/-- Programs that never swallow or transform an I/O error: no handler, or a handler that re-raises every `io`
+    error unchanged (and is itself such a program on the other errors). Destructor bodies (`finallyDrop _ c`) cannot
+    report errors — the property's exemption — so `c` is only required not to panic or hang (semantically:
+    `NonFatal`). `bindVia` is the escape hatch for the places where the code catches an error INTO A VALUE and
+    re-raises it after its own clean-up (`Prog.attempt`, `writeSlotsKeep`): the first program is characterised
+    semantically and the continuation must re-raise a carried I/O error. -/
+inductive IoSafe : {α : Type} → Prog α → Prop where
+  | pure {α} (a : α) : IoSafe (Prog.pure a)
+  | fail {α} (e : Err) : IoSafe (Prog.fail (α := α) e)
+  | op (o : Op) : IoSafe (Prog.op o)
+  | bind {α β} (p : Prog β) (k : β → Prog α) : IoSafe p → (∀ b, IoSafe (k b)) → IoSafe (Prog.bind p k)
+  | tryCatch {α} (p : Prog α) (h : Err → Prog α) : IoSafe p → (∀ k, h (.io k) = Prog.fail (.io k)) →
+      (∀ e, IoSafe (h e)) → IoSafe (Prog.tryCatch p h)
+  | finallyDrop {α} (p : Prog α) (c : Option α → Prog Unit) : IoSafe p → (∀ o, NonFatal (c o)) →
+      IoSafe (Prog.finallyDrop p c)
+  | bindVia {α β} (f : β → Option Err) (q : Prog β) (k : β → Prog α) : PropagatesVia f q → (∀ b, IoSafe (k b)) →
+      (∀ b j, f b = some (.io j) → Reraises j (k b)) → IoSafe (Prog.bind q k)
 
 theorem ioSafe_propagates {α} {p : Prog α} (hp : IoSafe p) : Propagates p := by
   induction hp with
@@ -445,7 +600,7 @@ theorem ioSafe_propagates {α} {p : Prog α} (hp : IoSafe p) : Propagates p := b
       cases rc with
       | ok u => simp only at hr; cases hr; exact hk
       | error e' =>
-        have hnf := noFatalFail_sound (hc _) _ hcr
+        have hnf := (hc _).out _ _ _ hcr
         simp only [hnf] at hr
         cases hr; exact hk
     | error e =>
@@ -458,9 +613,204 @@ theorem ioSafe_propagates {α} {p : Prog α} (hp : IoSafe p) : Propagates p := b
         cases rc with
         | ok u => simp only at hr; cases hr; exact hk
         | error e' =>
-          have hnf := noFatalFail_sound (hc _) _ hcr
+          have hnf := (hc _).out _ _ _ hcr
           simp only [hnf] at hr
           cases hr; exact hk
+  | bindVia f q k hq _ hre ihk =>
+    have := PropagatesVia.bind (g := fun _ => none) hq (fun b => (propagates_iff_via _).1 (ihk b))
+      (fun b j hb => (reraises_iff_via _ _).1 (hre b j hb))
+    exact (propagates_iff_via _).2 this
+
+/-- the old, purely syntactic rule for destructors -/
+theorem IoSafe.finallyDrop_syntactic {α} (p : Prog α) (c : Option α → Prog Unit) (hp : IoSafe p)
+    (hc : ∀ o, NoFatalFail (c o)) : IoSafe (Prog.finallyDrop p c) :=
+  IoSafe.finallyDrop p c hp (fun o => (hc o).nonFatal)
+
+/-- `attempt p` followed by a continuation that, handed an I/O error, ends by re-raising it -/
+theorem IoSafe.attemptThen {α β} (p : Prog β) (k : Except Err β → Prog α) (hp : IoSafe p)
+    (hk : ∀ r, IoSafe (k r)) (hre : ∀ j, Reraises j (k (.error (.io j)))) :
+    IoSafe (Prog.bind (Prog.attempt p) k) := by
+  refine IoSafe.bindVia exceptErr _ k (attempt_via (ioSafe_propagates hp)) hk ?_
+  intro b j hb
+  cases b with
+  | ok b => cases hb
+  | error e => simp only [exceptErr, Option.some.injEq] at hb; subst hb; exact hre j
+
+/-- re-raising survives a continuation (which is not reached) -/
+theorem Reraises.bind {α β} {j : Nat} {q : Prog β} (k : β → Prog α) (hq : Reraises j q) :
+    Reraises j (Prog.bind q k) := by
+  intro d h r d' hr
+  simp only [run] at hr
+  rcases hp : run q d with ⟨rq, d1⟩
+  rw [hp] at hr
+  have := hq d h _ _ hp
+  cases rq with
+  | ok b => simp [resErr] at this
+  | error e => simp only at hr; cases hr; exact this
+
+/-- a successful prefix followed by re-raising -/
+theorem Reraises.seq {α β} {j : Nat} {q : Prog β} {k : β → Prog α}
+    (hq : ∀ d : Dev, d.failAt = none → ∀ r d', run q d = (r, d') → ∃ b, r = .ok b)
+    (hk : ∀ b, Reraises j (k b)) : Reraises j (Prog.bind q k) := by
+  intro d h r d' hr
+  simp only [run] at hr
+  rcases hp : run q d with ⟨rq, d1⟩
+  rw [hp] at hr
+  obtain ⟨b, hb⟩ := hq d h _ _ hp
+  subst hb
+  simp only at hr
+  exact hk b d1 ((run_facts q d hp).spent h).1 _ _ hr
+
+theorem Reraises.fail {α} (j : Nat) : Reraises j (Prog.fail (α := α) (.io j)) := by
+  intro d _ r d' hr; simp only [run] at hr; cases hr; rfl
+
+/-- raising an I/O error in a scope whose destructors cannot panic -/
+theorem Reraises.finallyDrop {α} {j : Nat} {q : Prog α} {c : Option α → Prog Unit} (hq : Reraises j q)
+    (hc : ∀ o, NonFatal (c o)) : Reraises j (Prog.finallyDrop q c) := by
+  intro d h r d' hr
+  simp only [run] at hr
+  rcases hp : run q d with ⟨rq, d1⟩
+  rw [hp] at hr
+  have h1 := hq d h _ _ hp
+  cases rq with
+  | ok b => simp [resErr] at h1
+  | error e =>
+    simp only [resErr, Option.some.injEq] at h1
+    subst h1
+    simp only at hr
+    split at hr
+    · rename_i hh; cases hh
+    · rcases hcr : run (c none) { d1 with dropDepth := d1.dropDepth + 1 } with ⟨rc, d2⟩
+      rw [hcr] at hr
+      cases rc with
+      | ok u => simp only at hr; cases hr; rfl
+      | error e' =>
+        have hnf := (hc _).out _ _ _ hcr
+        simp only [hnf] at hr
+        cases hr; rfl
+
+/-! #### propagation up to tolerated substitute errors
+
+`createDir` gives the freshly allocated cluster back when the entry cannot be written, and returns the error of that
+roll-back if IT fails (`free_cluster_chain(cluster)?; return Err(err)`). `PropagatesX X` is `Propagates` where, after a
+fault `f` outside a destructor, the result may instead be an error `e` with `X f e`. -/
+
+def FaultOutcomeX (X : Fault → Err → Prop) (e? : Option Err) (d' : Dev) : Prop :=
+  d'.fault = none ∨
+  (d'.failAt = none ∧ ∃ f, d'.fault = some f ∧
+    (f.inDrop = false → e? = some (.io f.k) ∨ ∃ e, e? = some e ∧ X f e))
+
+def PropagatesX {α} (X : Fault → Err → Prop) (p : Prog α) : Prop :=
+  ∀ d : Dev, d.fault = none → ∀ r d', run p d = (r, d') → FaultOutcomeX X (resErr r) d'
+
+theorem FaultOutcome.toX {X : Fault → Err → Prop} {e? : Option Err} {d' : Dev} (h : FaultOutcome e? d') :
+    FaultOutcomeX X e? d' := by
+  rcases h with h | ⟨h1, f, h2, h3⟩
+  · left; exact h
+  · right; exact ⟨h1, f, h2, fun hf => Or.inl (h3 hf)⟩
+
+theorem Propagates.toX {α} {X : Fault → Err → Prop} {p : Prog α} (hp : Propagates p) : PropagatesX X p :=
+  fun d h r d' hr => (hp d h r d' hr).toX
+
+theorem PropagatesX.toPropagates {α} {X : Fault → Err → Prop} {p : Prog α} (hp : PropagatesX X p)
+    (hX : ∀ f e, ¬ X f e) : Propagates p := by
+  intro d h r d' hr
+  rcases hp d h r d' hr with h1 | ⟨h1, f, h2, h3⟩
+  · left; exact h1
+  · right
+    refine ⟨h1, f, h2, fun hf => ?_⟩
+    rcases h3 hf with h4 | ⟨e, _, h5⟩
+    · exact h4
+    · exact absurd h5 (hX f e)
+
+theorem PropagatesX.bind {α β} {X : Fault → Err → Prop} {p : Prog β} {k : β → Prog α}
+    (hp : PropagatesX X p) (hk : ∀ b, PropagatesX X (k b)) : PropagatesX X (Prog.bind p k) := by
+  intro d h r d' hr
+  simp only [run] at hr
+  rcases hq : run p d with ⟨rp, d1⟩
+  rw [hq] at hr
+  cases rp with
+  | error e => simp only at hr; cases hr; exact hp d h _ _ hq
+  | ok b =>
+    simp only at hr
+    rcases hp d h _ _ hq with h1 | ⟨h1, f, h2, h3⟩
+    · exact hk b d1 h1 _ _ hr
+    · have hs := (run_facts (k b) d1 hr).spent h1
+      right
+      refine ⟨hs.1, f, by rw [hs.2, h2], fun hf => ?_⟩
+      rcases h3 hf with h4 | ⟨e, h4, _⟩ <;> simp [resErr] at h4
+
+theorem PropagatesX.finallyDrop {α} {X : Fault → Err → Prop} {p : Prog α} {c : Option α → Prog Unit}
+    (ihp : PropagatesX X p) (hc : ∀ o, NonFatal (c o)) : PropagatesX X (Prog.finallyDrop p c) := by
+  intro d h r d' hr
+  simp only [run] at hr
+  rcases hp : run p d with ⟨rp, d1⟩
+  rw [hp] at hr
+  have key : ∀ {o rc d2}, run (c o) { d1 with dropDepth := d1.dropDepth + 1 } = (rc, d2) →
+      FaultOutcomeX X (resErr rp) { d2 with dropDepth := d2.dropDepth - 1 } := by
+    intro o rc d2 hcr
+    rcases ihp d h _ _ hp with h1 | ⟨h1, f, h2, h3⟩
+    · rcases run_any (c o) { d1 with dropDepth := d1.dropDepth + 1 } (by simpa using h1) hcr with h4 | ⟨h4, f', h5, h6⟩
+      · left; simpa using h4
+      · right
+        refine ⟨by simpa using h4, f', by simpa using h5, fun hf => ?_⟩
+        have := h6 (by simp); rw [this] at hf; cases hf
+    · have := (run_facts (c o) _ hcr).spent (by simpa using h1)
+      right; exact ⟨by simpa using this.1, f, by simpa [h2] using this.2, h3⟩
+  cases rp with
+  | ok a =>
+    simp only at hr
+    rcases hcr : run (c (some a)) { d1 with dropDepth := d1.dropDepth + 1 } with ⟨rc, d2⟩
+    rw [hcr] at hr
+    have hk := key hcr
+    cases rc with
+    | ok u => simp only at hr; cases hr; exact hk
+    | error e' =>
+      have hnf := (hc _).out _ _ _ hcr
+      simp only [hnf] at hr
+      cases hr; exact hk
+  | error e =>
+    simp only at hr
+    split at hr
+    · cases hr; exact ihp d h _ _ hp
+    · rcases hcr : run (c none) { d1 with dropDepth := d1.dropDepth + 1 } with ⟨rc, d2⟩
+      rw [hcr] at hr
+      have hk := key hcr
+      cases rc with
+      | ok u => simp only at hr; cases hr; exact hk
+      | error e' =>
+        have hnf := (hc _).out _ _ _ hcr
+        simp only [hnf] at hr
+        cases hr; exact hk
+
+/-- `attempt p`, then a continuation which — handed the I/O error, run after the fault has fired — ends in that
+    error or in a tolerated one -/
+theorem PropagatesX.attemptThen {α β} {X : Fault → Err → Prop} {p : Prog β} {k : Except Err β → Prog α}
+    (hp : Propagates p) (hk : ∀ r, PropagatesX X (k r))
+    (hre : ∀ (j : Nat) (d : Dev) (f : Fault), d.failAt = none → d.fault = some f →
+      ∀ r d', run (k (.error (.io j))) d = (r, d') → resErr r = some (.io j) ∨ ∃ e, resErr r = some e ∧ X f e) :
+    PropagatesX X (Prog.bind (Prog.attempt p) k) := by
+  intro d h r d' hr
+  simp only [run] at hr
+  rcases hq : run (Prog.attempt p) d with ⟨rq, d1⟩
+  rw [hq] at hr
+  have hv := attempt_via hp d h _ _ hq
+  cases rq with
+  | error e => simp only at hr; cases hr; exact FaultOutcome.toX hv
+  | ok b =>
+    simp only at hr
+    rcases hv with h1 | ⟨h1, f, h2, h3⟩
+    · exact hk b d1 h1 _ _ hr
+    · have hs := (run_facts (k b) d1 hr).spent h1
+      right
+      refine ⟨hs.1, f, by rw [hs.2, h2], fun hf => ?_⟩
+      have hb := h3 hf
+      cases b with
+      | ok b => cases hb
+      | error e =>
+        simp only [errVia, exceptErr, Option.some.injEq] at hb
+        subst hb
+        exact hre f.k d1 f h1 h2 _ _ hr
 
 /-! ### C13: programs without write operations write nothing -/
 
